@@ -369,7 +369,9 @@ func formatYear(t time.Time, marker *variableMarker) (string, error) {
 	}
 
 	y := t.Year()
-	if size > 0 {
+	if size > 0 && size < 19 {
+		// Wider than any int: nothing to truncate (and
+		// pow10 would overflow, to zero from 64 digits).
 		y = y % pow10(size)
 	}
 
